@@ -32,6 +32,23 @@ CHECKS = {
          "DiagLayer.decode / DiagService.encode_request. The compu-method clause is covered by C07's 'roundtrip' clause on exhaustive 8-bit domains.",
     note="Trusted: reference encoder (canonical PDUs), Hypothesis. PDUs odxtools refuses to decode are outside the statement and only counted.",
     design="3/C03"),
+ "C04": dict(
+    technique="exhaustive integer sweep around representability boundaries + Hypothesis-generated single-site value mutations; oracle: OdxError or faithful round trip",
+    text="(1) complete enumeration: one-leaf requests for every integer base type/encoding with bit length <= 8 (quick) / 12 (thorough), "
+         "every integer in [min-2^n, max+2^n], plus boundary values for 16..64 bit leaves; (2) generated descriptions with a valid "
+         "assignment mutated at one site (out of range, wrong type, wrong length, terminator inside, unencodable characters, missing "
+         "required / unknown parameters, malformed mux/field shapes). Outcome must be an OdxError or a PDU that decodes to the requested "
+         "values (quantising LINEAR methods: nearest-integer rule); any other exception class is a violation.",
+    note="Trusted: reference representable ranges (vlib/refcodec.int_range), value equivalence of DESIGN 2.5. Known finding C04-bitmask-truncates excluded by counterfactual predicate.",
+    design="3/C04"),
+ "C05": dict(
+    technique="structured byte-string fuzzing (prefixes, single-byte mutations, exhaustive short strings, random) over generated descriptions and the shipped database; atheris coverage-guided campaign in the thorough tier",
+    text="Bounded exploration from the wire: every prefix and single-byte mutation of valid PDUs, over-long PDUs, all strings of length <= 3 "
+         "over a reduced alphabet and random strings, for generated descriptions and every layer of examples/somersault.pdx, through "
+         "Request/Response.decode, DiagService.decode_message, DiagLayer.decode and decode_response, under the default and the "
+         "error::DecodeError warning regimes. Only DecodeError may escape, decoding must terminate (10 s guard), truncated static PDUs must be rejected.",
+    note="Trusted: Hypothesis, atheris/libFuzzer (thorough only), wall-clock guard for non-termination (generous, confirmed before reporting).",
+    design="3/C05"),
  "C08": dict(
     technique="Hypothesis-generated descriptions; static metadata cross-checked against actual encodings, omission and alternative-value experiments per parameter",
     text="Bounded exploration: for generated descriptions x accepted assignments (a) get_static_bit_length of message, parameters and "
